@@ -121,15 +121,19 @@ PROPS = {
     },
     "C08": {
         "level": "proof",
-        "verus": [("evaluated", None), ("amounts", None)],
+        "verus": [("evalvisit", None), ("evaluated", None), ("amounts", None)],
         "family": ("c08", {"quick": ["quick"], "thorough": ["thorough"]}),
-        "explanation": "Verus proves the typing rules of evaluation on the real functions: number+number and amount+amount (pointwise, per commodity) are the only sums, amount*number / number*amount the only "
+        "explanation": "Verus proves, by structural induction over expression trees of every depth, that Evaluable::eval_visit (ValueExpr / Expr / UnaryOpExpr / BinaryOpExpr) returns, whenever it succeeds, "
+                       "exactly the value of a functional semantics `sem` (unary minus negates, parentheses group, each binary node applies its operator to both evaluated sides) and therefore fails on every tree "
+                       "that has no value.  Verus also proves the typing rules of evaluation on the real functions: number+number and amount+amount (pointwise, per commodity) are the only sums, amount*number / number*amount the only "
                        "products with an amount, division by zero (number or all-zero amount) is DivideByZero, number/amount needs a single-commodity amount, amount/amount and number+amount are UnmatchingOperation; "
                        "conversions to SingleAmount / PostingAmount accept exactly one / at most one commodity and reject non-zero bare numbers.",
-        "units_doc": ["core/src/report/eval/evaluated.rs: Evaluated::{check_add,check_sub,check_mul,check_div,negate,is_zero,from_expr_amount,from_expr_amount_mut} and its TryFrom/From impls",
+        "units_doc": ["core/src/report/eval.rs: trait Evaluable::eval_visit and its four impls",
+                      "core/src/report/eval/evaluated.rs: Evaluated::{check_add,check_sub,check_mul,check_div,negate,is_zero,from_expr_amount,from_expr_amount_mut} and its TryFrom/From impls",
                       "core/src/report/eval/{amount,single_amount,posting_amount}.rs: 40 functions"],
-        "assumptions": [L0_DECIMAL, L0_HANDLES, L0_STD, L1_AMOUNT, "ReportContext stand-in (ctx_stub.rs): CommodityStore::{ensure,resolve} as assumed interface of InternStore (proved in C12)"],
-        "not_decided": ["precedence/associativity as produced by the winnow parser (parse/expr.rs)"],
+        "assumptions": [L0_DECIMAL, L0_HANDLES, L0_STD, L1_AMOUNT, "ReportContext stand-in (ctx_stub.rs): CommodityStore::{ensure,resolve} as assumed interface of InternStore (proved in C12)",
+                        "A-EVAL (rule R22): the literal evaluator closure (FnMut over &mut ctx) is treated as a stateless function (F: Fn, &F); the default methods eval_mut / eval that build it are dropped (R16)"],
+        "not_decided": ["precedence/associativity as produced by the winnow parser (parse/expr.rs)", "Evaluable::{eval_mut, eval} glue (closures capturing the context)"],
     },
     "C12": {
         "level": "proof",
